@@ -328,8 +328,10 @@ MANIFEST = {
             "anything that existed (stored_grads_are_fresh_objects). The model is run against MyGrad; the direct "
             "oracle checksums every caller-owned array (operands, index arrays, masks, seeds — owning, non-owning "
             "and of another dtype) and every tensor's data around every call, tests pairwise memory sharing of "
-            "all stored gradients with each other, with all data and with the seed, and edits each gradient in "
-            "place.",
+            "all stored gradients with each other, with all data and with the seed (owning seeds and seeds that are "
+            "views of a bigger caller buffer), and edits each gradient in place; 39 op/layer families are run again "
+            "with memory guarding off, plain and with planted zeros/ties (the value classes on which backward rules "
+            "patch their inputs).",
     "note": "Trusted: Lean kernel, standard axioms, correspondence harness. Whether a particular backward_var returns its "
             "argument, a view of it or cached state is measured per op family by the oracle (alias signatures), not modelled in "
             "Lean; ops with hand-written backward (GRU) are covered by the oracle only.",
